@@ -208,6 +208,119 @@ fn cleanup_check(def_text: &str, mode: u8, good: &[Vec<PTok>], bad: &[PTok]) -> 
     Ok(())
 }
 
+
+// ------------------------------------------------------------------------------------------------
+// ifdata_cleanup() on every list that can hold IF_DATA blocks: all patterns of valid / invalid blocks
+
+pub const CLEANUP_DEF: &str = "block \"IF_DATA\" taggedunion if_data {\n  \"ZZ\" uint;\n  \"YY\" struct { uint; char[4]; };\n};";
+const CLEANUP_PAYLOADS: [(&str, bool); 4] = [("ZZ 1", true), ("YY 2 \"ab\"", true), ("ZZ x", false), ("QQ 1 /begin R 2 /end R", false)];
+
+pub struct CleanupCase {
+    pub label: String,
+    pub parent: String,
+    /// 0 = definition in the file, 1 = built-in, 2 = no definition at all (every block is invalid)
+    pub mode: u8,
+    pub text: String,
+    /// the same document without the blocks that must be removed
+    pub expected_text: String,
+    pub pattern: Vec<usize>,
+}
+
+pub fn cleanup_cases(g: &vcore::grammar::Grammar, thorough: bool) -> Vec<CleanupCase> {
+    use vcore::docgen::*;
+    let mut out = Vec::new();
+    let parents: Vec<String> = g.all_tags().into_iter().filter(|t| g.get_elem(t).map(|e| e.refs.iter().any(|r| r.tag == "IF_DATA" && r.in_version(5))).unwrap_or(false)).collect();
+    let maxlen = if thorough { 4 } else { 3 };
+    let mut patterns: Vec<Vec<usize>> = Vec::new();
+    let mut frontier: Vec<Vec<usize>> = vec![vec![]];
+    for _ in 0..maxlen {
+        let mut next = Vec::new();
+        for f in &frontier {
+            for k in 0..CLEANUP_PAYLOADS.len() {
+                let mut t = f.clone();
+                t.push(k);
+                next.push(t);
+            }
+        }
+        patterns.extend(next.iter().cloned());
+        frontier = next;
+    }
+    for parent in &parents {
+        for mode in 0..3u8 {
+            for pat in &patterns {
+                let build = |keep_all: bool| -> String {
+                    let mut gen = Gen::new(g);
+                    let (mut doc, path) = gen.carrier_v(parent, 5, 1);
+                    // the MODULE on the path
+                    let mut mp = Vec::new();
+                    for i in 0..=path.len() {
+                        if doc.root.at(&path[..i]).tag == "MODULE" {
+                            mp = path[..i].to_vec();
+                        }
+                    }
+                    if mode == 0 {
+                        gen.reset();
+                        let mut a = gen.min_node("A2ML", 5, 0);
+                        a.raw = Some(CLEANUP_DEF.to_string());
+                        doc.root.at_mut(&mp).children.insert(0, a);
+                    }
+                    let mut path2 = path.clone();
+                    if mode == 0 && path.len() > mp.len() {
+                        // the A2ML block was inserted in front of the module's children
+                        path2[mp.len()] += 1;
+                    }
+                    for k in pat {
+                        let (pl, valid) = CLEANUP_PAYLOADS[*k];
+                        if !keep_all && !(valid && mode != 2) {
+                            continue;
+                        }
+                        gen.reset();
+                        let mut n = gen.min_node("IF_DATA", 5, 0);
+                        n.raw = Some(pl.to_string());
+                        doc.root.at_mut(&path2).children.push(n);
+                    }
+                    doc.text()
+                };
+                out.push(CleanupCase { label: format!("{parent} with IF_DATA blocks {pat:?}, definition {}", ["in the file", "built-in", "absent"][mode as usize]), parent: parent.clone(), mode, text: build(true), expected_text: build(false), pattern: pat.clone() });
+            }
+        }
+    }
+    out
+}
+
+pub fn eval_cleanup(c: &CleanupCase) -> Result<&'static str, (String, String)> {
+    let spec = if c.mode == 1 { Some(CLEANUP_DEF) } else { None };
+    let v = |o: &str, w: String| Err((o.to_string(), w));
+    let mut f = match load(&c.text, spec, false) {
+        Loaded::Ok(f, _) => f,
+        Loaded::Err(e) => return v("machinery", format!("document does not load: {e}\n{}", short(&c.text, 600))),
+        Loaded::Panic(p) => return v("panic", p),
+    };
+    let want = match load(&c.expected_text, spec, false) {
+        Loaded::Ok(f, _) => f,
+        _ => return v("machinery", "expected document does not load".into()),
+    };
+    guard(std::panic::AssertUnwindSafe(|| f.ifdata_cleanup())).map_err(|p| ("panic".to_string(), p))?;
+    if f != want {
+        let t = write(&f).unwrap_or_default();
+        let n_have = t.matches("/begin IF_DATA").count();
+        let n_want = c.expected_text.matches("/begin IF_DATA").count();
+        return v("cleanup-wrong-set", format!("after ifdata_cleanup() the model is not the model of the document without the invalid blocks ({n_have} IF_DATA blocks left, {n_want} expected)"));
+    }
+    let t1 = write(&f).map_err(|p| ("panic".to_string(), p))?;
+    guard(std::panic::AssertUnwindSafe(|| f.ifdata_cleanup())).map_err(|p| ("panic".to_string(), p))?;
+    if write(&f).map_err(|p| ("panic".to_string(), p))? != t1 {
+        return v("cleanup-not-idempotent", "a second ifdata_cleanup() changes the output".into());
+    }
+    match load(&t1, spec, false) {
+        Loaded::Ok(f2, _) if f2 == f => {}
+        Loaded::Ok(..) => return v("reload-differs", "the cleaned file loads to a different model".into()),
+        Loaded::Err(e) => return v("reload-fails", format!("{e}")),
+        Loaded::Panic(p) => return v("panic", p),
+    }
+    Ok("ifdata_cleanup patterns: exactly the invalid blocks removed")
+}
+
 pub struct DefPlan {
     pub idx: usize,
     pub top: Ty,
@@ -384,8 +497,30 @@ pub fn run(tier: &str) -> Run {
     run.extra.insert("disagreements_checked".into(), json!(run.evaluations));
     run.require("conforming: valid, preserved", 5000);
     run.require("non-conforming: invalid, preserved", 5000);
+    {
+        let g = crate::corpus::grammar();
+        let cc = cleanup_cases(&g, thorough);
+        let cres = par_map(cc.len(), &|i| eval_cleanup(&cc[i]), &|i| {
+            println!("MACHINERY-ERROR: C18 cleanup pattern case hangs: {}", cc[i].label);
+            std::process::exit(2);
+        });
+        for (i, r) in cres.into_iter().enumerate() {
+            run.evaluations += 1;
+            run.transitions += 6;
+            run.states.insert(fnv1a(cc[i].text.as_bytes()));
+            match r {
+                Ok(o) => run.outcome(o),
+                Err((o, w)) if o == "machinery" => run.machinery(format!("{}: {w}", cc[i].label)),
+                Err((o, w)) => {
+                    let key = if o == "panic" { format!("C18/panic {}", vcore::explore::panic_key(&w)) } else { format!("C18/{o}/patterns/{}", cc[i].parent) };
+                    run.violation(key, format!("{}: {w}", cc[i].label), json!({"cleanup_pattern": {"parent": cc[i].parent, "mode": cc[i].mode, "pattern": cc[i].pattern}}));
+                }
+            }
+        }
+        run.require("ifdata_cleanup patterns: exactly the invalid blocks removed", 1000);
+    }
     run.require("ifdata_cleanup: exactly the valid blocks remain", 300);
-    run.rule = "programs = A2ML definitions from the generator (14 leaf types incl. all 10 scalars, char[n], enums with/without values, 1- and 2-dimensional arrays; arrays of enums / structs / arrays, sequences of arrays; structs; taggedstruct / taggedunion items in the forms tag, tag member, block, repeated, repeated block, tag (member)*; nesting depth <= 2 (thorough: <= 3, and <= 4 over the leaf type uint), no thinning; named type referenced later; top-level (member)*); per definition all instances of the enumerator (cap 8 / 24) under the supply modes in-file / built-in / both, and for the first instances every single-token deletion, duplication, replacement by another lexical class and appended token that keeps /begin-/end balanced, every block written as keyword item and every keyword item with its next 0..4 values written as block. Oracle: strict reference matcher accepts => ifdata_valid and payload tokens preserved (integer notation kept, floats at the precision of the type); lenient matcher rejects => load succeeds, ifdata_valid false, payload preserved; in between (identifier for string, over-long string, duplicate non-repeatable tag) don't care; reload equal; ifdata_cleanup() keeps exactly the valid blocks.".into();
+    run.rule = "programs = A2ML definitions from the generator (14 leaf types incl. all 10 scalars, char[n], enums with/without values, 1- and 2-dimensional arrays; arrays of enums / structs / arrays, sequences of arrays; structs; taggedstruct / taggedunion items in the forms tag, tag member, block, repeated, repeated block, tag (member)*; nesting depth <= 2 (thorough: <= 3, and <= 4 over the leaf type uint), no thinning; named type referenced later; top-level (member)*); per definition all instances of the enumerator (cap 8 / 24) under the supply modes in-file / built-in / both, and for the first instances every single-token deletion, duplication, replacement by another lexical class and appended token that keeps /begin-/end balanced, every block written as keyword item and every keyword item with its next 0..4 values written as block. Oracle: strict reference matcher accepts => ifdata_valid and payload tokens preserved (integer notation kept, floats at the precision of the type); lenient matcher rejects => load succeeds, ifdata_valid false, payload preserved; in between (identifier for string, over-long string, duplicate non-repeatable tag) don't care; reload equal; ifdata_cleanup() keeps exactly the valid blocks. Cleanup patterns: every element kind that can hold IF_DATA (11) x every sequence of <= 3 (thorough 4) blocks over {2 valid, 2 invalid payloads} x definition {in the file, built-in, absent}: after ifdata_cleanup() the model equals the model of the same document written without the invalid blocks, a second call changes nothing, the result reloads equal.".into();
     run
 }
 
@@ -412,6 +547,14 @@ fn shape_of(t: &Ty) -> String {
 }
 
 pub fn replay(v: &Value) -> Result<String, String> {
+    if let Some(cp) = v.get("cleanup_pattern") {
+        let g = crate::corpus::grammar();
+        let parent = cp["parent"].as_str().ok_or("no parent")?;
+        let mode = cp["mode"].as_u64().ok_or("no mode")? as u8;
+        let pattern: Vec<usize> = cp["pattern"].as_array().ok_or("no pattern")?.iter().map(|x| x.as_u64().unwrap_or(0) as usize).collect();
+        let c = cleanup_cases(&g, true).into_iter().find(|c| c.parent == parent && c.mode == mode && c.pattern == pattern).ok_or("case not found")?;
+        return eval_cleanup(&c).map(|s| s.to_string()).map_err(|(o, w)| format!("{o}: {w}"));
+    }
     let def = v["def"].as_str().ok_or("no def")?.to_string();
     if v["hang"].as_bool().unwrap_or(false) || v["cleanup"].as_bool().unwrap_or(false) {
         // re-run the whole plan of this definition under a watchdog
